@@ -1100,6 +1100,7 @@ class ClientRequest(ClientRequestBase):
             assert type(proxy) is URL, proxy
         self._session = session
         self.chunked = chunked
+        self._chunked_by_caller = bool(chunked)
         self.response_class = response_class
         self._response_params = response_params
         self._timer = timer
@@ -1226,11 +1227,14 @@ class ClientRequest(ClientRequestBase):
         te = self.headers.get(hdrs.TRANSFER_ENCODING, "").lower()
 
         if "chunked" in te:
-            if self.chunked:
+            if self._chunked_by_caller:
                 raise ValueError(
                     "chunked can not be set "
                     'if "Transfer-Encoding: chunked" header is set'
                 )
+            # What the caller's header announces is how the body goes out.
+            self.chunked = True
+            self.headers.pop(hdrs.CONTENT_LENGTH, None)
 
         elif self.chunked:
             if hdrs.CONTENT_LENGTH in self.headers:
